@@ -15,7 +15,8 @@ including two things a reader might not expect:
   shrinks at a split, so at most ONE split happens per call (the loop ends early; the tail may still span
   several cells);
 * `lastGoalMotion_` / `isApproximate` bookkeeping: an exact hit sets `isApproximate = false` and breaks; a closer
-  motion only replaces `lastGoalMotion_` (the class of seeded change C02-s1).
+  motion only replaces `lastGoalMotion_` (the class of seeded change C02-s1), and — since fix fc68fdba5 (F160) — only
+  while `isApproximate` still holds (`iterOld`/`runOld`/`resumeOld` keep the former, unguarded code for the witness).
 
 Oracles / parameters: system (`step`, `valid`), `dist`/`close`, goal, projection, the planner's RNG as an abstract
 machine (`rng01`, `rngInt1 g hi = uniformInt(1, hi)`); per iteration the script gives the sampled state and the
@@ -315,6 +316,60 @@ def iter (P : Problem S U α ρ) (st0 : St S U α ρ) (d : Draw S U) : St S U α
           let g := P.goal reached
           if g.1 then ({ st3 with closest := g.2, lastGoal := some ni, isApprox := false }, .done)
           else
+            -- `else if (isApproximate && distanceToGoal < closestDistanceToGoal)` (guard added by fix fc68fdba5, F160)
+            let st4 := if st3.isApprox && decide (g.2 < st3.closest) then { st3 with closest := g.2, lastGoal := some ni } else st3
+            -- subdivide the selected motion's cell and re-insert its motions
+            match st4.motions[sel]? with
+            | none => (st4, .halt)
+            | some ms =>
+              let sd := subdivide P st4 ms.cell
+              (sd.2.foldl (fun s i => addMotion P s i ms.cell) sd.1, .cont)
+
+/-- one iteration of the loop **before fix fc68fdba5** (finding F160): the closest-motion branch is not guarded by
+`isApproximate`.  Kept for the witness `pdst_resume_exact_goal_fails`. -/
+def iterOld (P : Problem S U α ρ) (st0 : St S U α ρ) (d : Draw S U) : St S U α ρ × Flow :=
+  match st0.heap.top with
+  | none => (st0, .halt)
+  | some e =>
+    let sel := e.key.2
+    match st0.motions[sel]? with
+    | none => (st0, .halt)
+    | some m0 =>
+      -- motionSelected->updatePriority(); priorityQueue_.update(…)
+      let m := { m0 with priority := m0.priority * Num.ofNat 2 + Num.ofNat 1 }
+      let stA := { st0 with motions := st0.motions.setIfInBounds sel m }
+      let st := match m.helem with
+        | some h => { stA with heap := stA.heap.setKey klt h (score stA m, sel) }
+        | none => stA
+      -- propagateFrom
+      let pd : Nat × ρ := if m.dur > 1 then P.rngInt1 st.rng m.dur else (m.dur, st.rng)
+      let start : S :=
+        if pd.1 == m.dur then m.stop
+        else match m.control with
+          | some u => propagate P.step m.start u pd.1
+          | none => m.stop
+      let gb : Bool × ρ :=
+        if P.goalSampleable then
+          let r := P.rng01 pd.2
+          (decide (r.1 < P.goalBias) && P.canSample, r.2)
+        else (false, pd.2)
+      let st1 := { st with rng := gb.2 }
+      let rnd := if gb.1 then P.goalSample else d.sample
+      match sampleTo P.step P.valid P.dist (fun a b => decide (a < b)) start rnd d.ctl with
+      | none => (st1, .cont)
+      | some (u, dur, reached) =>
+        if dur < P.minSteps then (st1, .cont)
+        else
+          let ni := st1.motions.size
+          let it := st1.iteration + 1
+          let nm : PMotion S U α :=
+            { start := start, stop := reached, control := some u, ctl := some st1.nextCtl, dur := dur,
+              priority := Num.ofNat it, parent := some sel, cell := 0, helem := none, isSplit := false }
+          let st2 := { st1 with motions := st1.motions.push nm, iteration := it, nextCtl := st1.nextCtl + 1 }
+          let st3 := addMotion P st2 ni 0
+          let g := P.goal reached
+          if g.1 then ({ st3 with closest := g.2, lastGoal := some ni, isApprox := false }, .done)
+          else
             let st4 := if g.2 < st3.closest then { st3 with closest := g.2, lastGoal := some ni } else st3
             -- subdivide the selected motion's cell and re-insert its motions
             match st4.motions[sel]? with
@@ -405,6 +460,32 @@ def resume (P : Problem S U α ρ) (st : St S U α ρ) (pdefHasExact : Bool) (ne
     if st0.motions.size = 0 then { status := .invalidStart, dif := P.inf, path := none, final := st0 }
     else
       let st1 := run P st0 draws
+      match st1.lastGoal with
+      | none => { status := .timeout, dif := st1.closest, path := none, final := st1 }
+      | some l =>
+        { status := if st1.isApprox then .approximate else .exact, dif := st1.closest,
+          path := assemble P st1.motions l, final := st1 }
+
+/-! ### the code before fix fc68fdba5 (F160), for the witness only -/
+
+def runOld (P : Problem S U α ρ) : St S U α ρ → List (Draw S U) → St S U α ρ
+  | st, [] => st
+  | st, d :: ds =>
+    match iterOld P st d with
+    | (st', .cont) => runOld P st' ds
+    | (st', _) => st'
+
+/-- `resume` with the unguarded loop -/
+def resumeOld (P : Problem S U α ρ) (st : St S U α ρ) (pdefHasExact : Bool) (newStarts : List S)
+    (draws : List (Draw S U)) : Result S U α ρ :=
+  let hf := headFlags P st
+  if st.lastGoal.isSome && !hf.1 && pdefHasExact then
+    { status := .exact, dif := hf.2, path := none, final := st }
+  else
+    let st0 := (newStarts.filter P.valid).foldl (addStart P) { st with isApprox := hf.1, closest := hf.2 }
+    if st0.motions.size = 0 then { status := .invalidStart, dif := P.inf, path := none, final := st0 }
+    else
+      let st1 := runOld P st0 draws
       match st1.lastGoal with
       | none => { status := .timeout, dif := st1.closest, path := none, final := st1 }
       | some l =>
